@@ -1,5 +1,13 @@
 package main
 
+import (
+	"path/filepath"
+	"strings"
+)
+
+// cleanPath is the documented normalisation of an Add/Remove argument.
+func cleanPath(p string) string { return filepath.Clean(p) }
+
 // Violation is one property violation found in a run.
 type Violation struct {
 	Kind    string `json:"kind"`
@@ -25,3 +33,36 @@ type RunResult struct {
 	Deadlock    []string       `json:"deadlock,omitempty"`
 	Sample      interface{}    `json:"sample,omitempty"`
 }
+
+// fsnotify Op bits (documented values of the public constants; the four
+// unportable ones come from the export file at init).
+const (
+	mCreate uint32 = 1 << iota
+	mWrite
+	mRemove
+	mRename
+	mChmod
+)
+
+var (
+	mOpen, mRead, mCloseWrite, mCloseRead uint32
+	mDefaultOps                           = mCreate | mWrite | mRemove | mRename | mChmod
+)
+
+func opString(o uint32) string {
+	var p []string
+	for _, x := range []struct {
+		b uint32
+		n string
+	}{{mCreate, "CREATE"}, {mRemove, "REMOVE"}, {mWrite, "WRITE"}, {mOpen, "OPEN"}, {mRead, "READ"}, {mCloseWrite, "CLOSE_WRITE"}, {mCloseRead, "CLOSE_READ"}, {mRename, "RENAME"}, {mChmod, "CHMOD"}} {
+		if x.b != 0 && o&x.b != 0 {
+			p = append(p, x.n)
+		}
+	}
+	if len(p) == 0 {
+		return "[no events]"
+	}
+	return strings.Join(p, "|")
+}
+
+var debugOracle bool
